@@ -151,6 +151,8 @@ def _maps(rep):
                 std_mapping_to_primitive = sm
                 wyckoffs = orig
                 crystallographic_orbits = orig
+                # spglib's equivalent_atoms refer to the symmetry of the *given* cell (not class-homogeneous for supercells): unconstrained
+                equivalent_atoms = sym_int_rows("equivalent_atoms_of_the_given_cell", N)
 
             q = z3.Int("q!m")
             st.ghost["DS"] = DS
